@@ -3,6 +3,7 @@ package c09
 
 import (
 	"fmt"
+	"math"
 	"os"
 	"strings"
 	"testing"
@@ -164,14 +165,18 @@ func drawHandleOp(t *rapid.T) fsx.Op {
 		o.Off = rapid.SampledFrom([]int64{-1, 0, 1, 5}).Draw(t, "off")
 	case "FWrite", "FWriteAt", "FWriteString":
 		o.Data = rapid.SampledFrom([]string{"", "w"}).Draw(t, "data")
-		o.Off = rapid.SampledFrom([]int64{0, 1, 5}).Draw(t, "off")
+		// refused whatever the arguments: a mutating call on a read-only handle is a permission
+		// matter before it is an argument matter
+		o.Off = rapid.SampledFrom([]int64{0, 1, 5, -1, 1 << 40, math.MaxInt64}).Draw(t, "off")
 	case "FSeek":
 		o.Off = rapid.SampledFrom([]int64{-1, 0, 1, 5}).Draw(t, "off")
 		o.Whence = rapid.IntRange(0, 2).Draw(t, "whence")
 	case "FTruncate":
-		o.Size = rapid.SampledFrom([]int64{0, 1, 100}).Draw(t, "size")
+		o.Size = rapid.SampledFrom([]int64{0, 1, 100, -1, math.MaxInt64}).Draw(t, "size")
 	case "FChmod":
-		o.Perm = 0o600
+		o.Perm = rapid.SampledFrom([]uint32{0o600, 0o7777, 0}).Draw(t, "perm")
+	case "FChown":
+		o.Uid, o.Gid = rapid.SampledFrom([]int{-1, 0, 42}).Draw(t, "uid"), rapid.SampledFrom([]int{-1, 0, 42}).Draw(t, "gid")
 	case "FReadDir", "FReaddirnames":
 		o.N = rapid.SampledFrom([]int{-1, 1, 2}).Draw(t, "n")
 	}
